@@ -4,3 +4,7 @@ import Xrfmv.Props.C02
 #print axioms Xrfmv.Props.C02.ridge_iff_pred
 #print axioms Xrfmv.Props.C02.ridge_unique
 #print axioms Xrfmv.Props.C02.ridge_unique_matrix
+#print axioms Xrfmv.Props.C02.ridge_exists_unique
+#print axioms Xrfmv.Props.C02.ridge_exists_unique_lpq
+#print axioms Xrfmv.Props.C02.ridge_exists_unique_laplace
+#print axioms Xrfmv.Props.C02.ridge_exists_unique_product
